@@ -555,6 +555,11 @@ class Arith(System):
             return ('pcopy', nb)
         elif op == 'reduce':
             p = st.p
+            # same domain rule as for a + b / a - b above: a set whose members' extents cancel on the reactant has no
+            # "conversion of the reactant" to be reduced to (e.g. int pattern (1, 1, 0): c -= a gives X = -1, a and c cancel)
+            Et = sum(pv.nu * X for pv, X in zip(st.pval, st.pX)); r0 = st.pval[0].ridx
+            if abs(Et[r0]) <= 1e-12:
+                raise Rejected('degenerate:' + ('zero net conversion with non-zero net change' if np.abs(Et).max() > 1e-12 else 'null reaction'), cut=False)
             red = run(lambda: p.reduce())
             if red is p:
                 raise Violation('returns-new-object', 'reduce() returned the set itself', match=match)
@@ -604,7 +609,12 @@ class Arith(System):
     def _all_products(self, v):
         E = v.E if v.E.ndim == 1 else v.E.sum(0)
         s = np.sign(v.X()) or 1.0
-        return [IDS[i] for i in range(N) if E[i] * s > 0]
+        prods = [IDS[i] for i in range(N) if E[i] * s > 0]
+        if not prods and v.X() == 0 and v.nu is not None:
+            # X == 0 (e.g. a member constructed with the int 0): the extents vanish, the stored stoichiometry still names the products
+            nu = np.asarray(v.nu, float); nu = nu if nu.ndim == 1 else nu.sum(0)
+            prods = [IDS[i] for i in range(N) if nu[i] > 0]
+        return prods
 
     def _check_new(self, st, new, operands, match, what):
         if new is None or not hasattr(new, '_stoichiometry'):
